@@ -211,3 +211,17 @@ func reachWithHelpers(v ssa.Value, pkg *ssa.Package) map[ssa.Value]bool {
 	}
 	return out
 }
+
+// succeedsOnlyAfter: every nil-error return of h lies behind a call matching pred whose error result was
+// tested (or is what h returns). The quiet form of mustPassChecked, used to take a helper as the event itself.
+func succeedsOnlyAfter(h *ssa.Function, pred viaPred) bool {
+	if h == nil || h.Blocks == nil || core.ErrIndex(h.Signature) < 0 {
+		return false
+	}
+	cv := core.NewCheckedVia(h, pred)
+	if len(cv.Calls) == 0 || len(cv.Unhandled) > 0 {
+		return false
+	}
+	esc, _ := core.PathQ{Fn: h, Via: cv.Via, ViaEdge: cv.ViaEdge, Target: cv.WrapTarget(core.NilReturn)}.Escape()
+	return esc == nil
+}
